@@ -135,6 +135,27 @@ func (p *Program) DefOf(x ast.Expr) ast.Expr {
 	return d.rhs
 }
 
+// DefExpr returns the defining expression of a single-assignment local without asking whether it is stable
+// (for rules that only need to know where a value came from).
+func (p *Program) DefExpr(x ast.Expr) ast.Expr {
+	for i := 0; i < 6; i++ {
+		id, ok := ast.Unparen(x).(*ast.Ident)
+		if !ok {
+			return ast.Unparen(x)
+		}
+		o := objOf(p.Info, id)
+		if o == nil {
+			return id
+		}
+		d := p.defTable()[o]
+		if d == nil || d.count != 1 || d.rhs == nil {
+			return id
+		}
+		x = d.rhs
+	}
+	return ast.Unparen(x)
+}
+
 // stableExpr: evaluating x later (while its variables are in scope) gives the same value as evaluating it now.
 func (p *Program) stableExpr(x ast.Expr, depth int) bool {
 	if depth > 8 {
